@@ -174,6 +174,16 @@ class TW:
         self.connects.append((user, 'ok'))
         return ep
 
+    def incoming_peer(self, user, typ='P'):
+        """The peer connects to our listening port and introduces itself (PeerInit)."""
+        from aioslsk.protocol.messages import PeerInit
+        ep = self.w.net.incoming(60000, peername=(self.user_ip(user), 42000 + len(self.eps)))
+        idx = len(self.eps)
+        self.eps.append((user, ep))
+        ep.on_data = lambda d, user=user, idx=idx: self.wlog.append((len(self.wlog), user, idx, d))
+        ep.feed(PeerInit.Request(user, typ, 1).serialize())
+        return ep
+
     def release_slow(self, user=None, ok=True):
         rest = []
         for u, fut in self.slow:
@@ -210,7 +220,7 @@ class TW:
     def peer_ep(self, user):
         """The first endpoint of the user that carries peer (P) messages and is still open."""
         for u, ep in self.eps:
-            if u == user and not ep.client_closed:
+            if u == user and not ep.client_closed and not ep.remote_closed:
                 return ep
         return None
 
